@@ -7,6 +7,7 @@ CONSTANTS
   ReadCalls <- GenReadCalls
   MaxReads <- GenMaxReads
   Broken <- GenBroken
+  InitMap <- GenInit
 VIEW view
 INVARIANTS TypeOK MutualExclusion NoLostUpdate MonotoneReads ReadsSeePublished ReadsNeverWait
 PROPERTIES AppendOnly StepwiseSerial
